@@ -213,22 +213,59 @@ def set_type_validate(ctx):
               'the transform is not applied to the rows before they are cast')
     tf = st.methods['transformer']
     loop, var, _ = observers.single_row_loop(ctx, tf, 'rows')
-    ok = has_stmt('_row[_f] = self.transform(_row.get(_f), field_name=_f, row=_row)', loop, {'_row': var}) or \
-        has_stmt('_row[_f] = self.transform(_row[_f], field_name=_f, row=_row)', loop, {'_row': var})
+    ok = False
+    for st_ in ast.walk(loop):
+        if isinstance(st_, ast.Assign) and isinstance(st_.targets[0], ast.Subscript) and pseudo(st_.targets[0].value) == var:
+            val_ = resolve_here(st_.value)
+            key_ = pseudo(st_.targets[0].slice)
+            if key_ and (match_expr('self.transform(%s.get(%s), field_name=%s, row=%s)' % (var, key_, key_, var), val_) is not None or
+                         match_expr('self.transform(%s[%s], field_name=%s, row=%s)' % (var, key_, key_, var), val_) is not None):
+                ok = True
     sig = rowloop_signature(tf, loop, var)
     ok = ok and all([k for k, _ in s.yields] == ['identity'] and s.term == FALL for s in sig)
     run.check(ok, 'R20', tf.where, tf.qualname, 'row[f] = transform(row.get(f), field_name=f, row=row); yield row',
               'the transformer does not replace exactly the selected fields of each row')
     # package phase: options merged under MATCH and name pattern; field name recorded for that resource
-    body = u(pd.node)
-    upd = [c for c in ast.walk(pd.node) if isinstance(c, ast.Call) and u(c.func) == 'field.update' and u(c.args[0]) == 'self.options']
-    ok = len(upd) == 1
-    if ok:
-        cond = upd[0]._parent._parent
-        ok = isinstance(cond, ast.If) and u(cond.test) == "self.name.match(field['name'])"
-        rec = [c for c in ast.walk(cond) if isinstance(c, ast.Call) and isinstance(c.func, ast.Attribute) and c.func.attr == 'append'
-               and 'self.field_names' in u(c.func.value) and u(c.args[0]) == "field['name']" and "res['name']" in u(c.func.value)]
-        ok = ok and len(rec) == 1
+    pdn = ctx.N(pd)
+    ok = False
+    outer_l = [l for l in ast.walk(pdn.node) if isinstance(l, ast.For) and isinstance(l.target, ast.Name) and "['resources']" in u(l.iter)]
+    if len(outer_l) == 1:
+        rvar = outer_l[0].target.id
+        inner_l = [l for l in ast.walk(outer_l[0]) if isinstance(l, ast.For) and l is not outer_l[0] and isinstance(l.target, ast.Name)
+                   and match_expr("%s['schema']['fields']" % rvar, l.iter) is not None]
+        if len(inner_l) == 1:
+            fvar = inner_l[0].target.id
+            ok = True
+            seen = set()
+            for p_ in _En(where=pdn.qualname).body_paths(inner_l[0]):
+                hit = None
+                for t, pol in p_.guards():
+                    t, pol = norm_compare(t, pol)
+                    if match_expr("self.name.match(%s['name'])" % fvar, t) is not None:
+                        hit = pol
+                nodes = list(path_nodes(p_))
+                upd = [c for c in nodes if match_expr('%s.update(self.options)' % fvar, c) is not None]
+                rec = [c for c in nodes if match_expr("self.field_names.setdefault(%s['name'], []).append(%s['name'])" % (rvar, fvar), c) is not None]
+                other_upd = [c for c in nodes if isinstance(c, ast.Call) and isinstance(c.func, ast.Attribute) and c.func.attr == 'update'
+                             and c not in upd]
+                if hit is None:
+                    ok = False
+                elif hit:
+                    ok = ok and len(upd) == 1 and len(rec) == 1 and not other_upd
+                else:
+                    ok = ok and not upd and not rec and not other_upd
+                seen.add(hit)
+            ok = ok and seen == {True, False}
+            # the field loop runs only for selected resources
+            sel = False
+            for p_ in _En(where=pdn.qualname).body_paths(outer_l[0]):
+                reaches = any(it_.kind == 'loop' and it_.node is inner_l[0] for it_ in p_.items)
+                m_ = [pol for t, pol in [norm_compare(t_, pol_) for t_, pol_ in p_.guards()]
+                      if match_expr("self.matcher.match(%s['name'])" % rvar, t) is not None]
+                if reaches:
+                    sel = bool(m_) and all(m_)
+                    ok = ok and sel
+            ok = ok and sel
     run.check(ok, 'R20', pd.where, pd.qualname, "if self.name.match(field['name']): field.update(options); record name for this resource",
               'options are merged into fields other than those whose name the pattern matches, or the names handed to the validator differ')
     init = st.methods['__init__']
